@@ -17,20 +17,21 @@ set_option linter.unusedVariables false
 /-! ### the predicate -/
 
 /-- side condition on the locals / checkpoint stacks -/
-abbrev Ctx := List Bool → List Nat → Prop
+abbrev Ctx := List Bool → CpStack → Prop
 abbrev anyCtx : Ctx := fun _ _ => True
 /-- no saved checkpoint points at the innermost open node (needed by `pushCp`) -/
-abbrev cp0Ctx : Ctx := fun _ cps => cps.contains 0 = false
+abbrev cp0Ctx : Ctx := fun _ cps => hasTop cps = false
 /-- inside `arg_value_list`: the "named argument seen" local is `false` -/
-abbrev argCtx : Ctx := fun loc cps => loc.head? = some false ∧ cps.contains 0 = false
+abbrev argCtx : Ctx := fun loc cps => loc.head? = some false ∧ hasTop cps = false
 
 /-- `p` consumes exactly `R` (whatever follows, as long as the next token satisfies `Fol`), leaves
 `flOut` in the flag and everything else alone; fuel `64·|R| + C` suffices -/
-def Consumes (ctx : Ctx) (p : Prog) (C : Nat) (flOut : Bool) (Fol : TokenKind → Bool) (R : List TokenKind) : Prop :=
+def Consumes (ctx : Ctx) (p : Prog) (C : Nat) (flOut : Bool) (Fol : TokenKind → Bool) (K : List SyntaxKind)
+    (R : List TokenKind) : Prop :=
   ∀ (Z : List TokenKind), Fol (Z.headD .Eof) = true →
-    ∀ (n : Nat) (fl : Bool) (d : Nat) (loc : List Bool) (cps : List Nat), ctx loc cps →
+    ∀ (n : Nat) (fl : Bool) (d : Nat) (loc : List Bool) (cps : CpStack) (cur : List SyntaxKind) (ps : List (SyntaxKind × List SyntaxKind)), ctx loc cps →
       64 * R.length + C ≤ n →
-      ax n p ⟨R ++ Z, fl, d, loc, cps, true⟩ = some ⟨Z, flOut, d, loc, cps, true⟩
+      ax n p ⟨R ++ Z, fl, d, loc, cps, true, cur, ps⟩ = some ⟨Z, flOut, d, loc, cps, true, pushAll K cur, ps⟩
 
 /-! ### follow sets -/
 
@@ -73,83 +74,106 @@ theorem Starts.append {R : List TokenKind} (h : Starts R) (S : List TokenKind) :
 
 /-! ### the predicates for the value functions -/
 
-def LitOk (H : List TokenKind) : Prop := Consumes cp0Ctx (call .simple_value) 240 true litFollowOk H
-def SufOk (S : List TokenKind) : Prop := Consumes anyCtx (call .value_suffix) 224 true anyFollow S
-def SufsOk (S : List TokenKind) : Prop :=
-  Consumes anyCtx (loop (call .value_suffix) nop) 240 false sufsFollowOk S ∧
+/-- `K`: the kinds of the nodes the program adds to the open node, in source order -/
+def LitOk (k : SyntaxKind) (H : List TokenKind) : Prop := Consumes cp0Ctx (call .simple_value) 240 true litFollowOk [k] H
+def SufOk (k : SyntaxKind) (S : List TokenKind) : Prop := Consumes anyCtx (call .value_suffix) 224 true anyFollow [k] S
+def SufsOk (Ks : List SyntaxKind) (S : List TokenKind) : Prop :=
+  Consumes anyCtx (loop (call .value_suffix) nop) 240 false sufsFollowOk Ks S ∧
     ∀ Z, svalFollowOk (Z.headD .Eof) = true → litFollowOk ((S ++ Z).headD .Eof) = true
-def SValOk (R : List TokenKind) : Prop := Consumes anyCtx (call .inner_value) 256 true svalFollowOk R
-def PasteOk (T : List TokenKind) : Prop :=
-  Consumes anyCtx (loop (eatIf .Paste) (call .inner_value)) 272 false valFollowOk T ∧
+def SValOk (R : List TokenKind) : Prop := Consumes anyCtx (call .inner_value) 256 true svalFollowOk [.InnerValue] R
+def PasteOk (n : Nat) (T : List TokenKind) : Prop :=
+  Consumes anyCtx (loop (eatIf .Paste) (call .inner_value)) 272 false valFollowOk (List.replicate n .InnerValue) T ∧
     ∀ Z, valFollowOk (Z.headD .Eof) = true → svalFollowOk ((T ++ Z).headD .Eof) = true
-def ValOk (R : List TokenKind) : Prop := Consumes anyCtx (call .value) 288 true valFollowOk R
+def ValOk (R : List TokenKind) : Prop := Consumes anyCtx (call .value) 288 true valFollowOk [.Value] R
 
 /-! ### suffix loop, inner value, paste loop, value -/
 
-theorem sufs_nil : SufsOk [] := by
+theorem sufs_nil : SufsOk [] [] := by
   refine ⟨?_, fun Z h => by simpa using sval_lit h⟩
-  intro Z hf n fl d loc cps _ hn
+  intro Z hf n fl d loc cps cur ps _ hn
   obtain ⟨h1, h2, h3⟩ := sufsFollowOk_iff.mp hf
   obtain ⟨m, rfl⟩ : ∃ m, n = m + 20 := ⟨n - 20, by omega⟩
   rw [ax_loop]
   ax_eval [ax_call]
 
-theorem sufs_cons {S1 S : List TokenKind} (h1 : SufOk S1)
+theorem sufs_cons {k : SyntaxKind} {Ks : List SyntaxKind} {S1 S : List TokenKind} (h1 : SufOk k S1)
     (hh : ∀ Z, [TokenKind.LBrace, .LSquare, .Dot].contains ((S1 ++ Z).headD .Eof) = true)
-    (hpos : 1 ≤ S1.length) (hS : SufsOk S) : SufsOk (S1 ++ S) := by
+    (hpos : 1 ≤ S1.length) (hS : SufsOk Ks S) : SufsOk (k :: Ks) (S1 ++ S) := by
   refine ⟨?_, fun Z _ => by rw [List.append_assoc]; exact prop_of_mem litFollowOk (hh _) (by decide)⟩
-  intro Z hf n fl d loc cps _ hn
+  intro Z hf n fl d loc cps cur ps _ hn
   simp only [List.length_append] at hn
   obtain ⟨m, rfl⟩ : ∃ m, n = m + 8 := ⟨n - 8, by omega⟩
-  have e1 := fun n fl d loc cps => h1 (S ++ Z) rfl n fl d loc cps trivial
-  have e2 := fun n fl d loc cps => hS.1 Z hf n fl d loc cps trivial
+  have e1 := fun n fl d loc cps cur ps => h1 (S ++ Z) rfl n fl d loc cps cur ps trivial
+  have e2 := fun n fl d loc cps cur ps => hS.1 Z hf n fl d loc cps cur ps trivial
   rw [ax_loop]
   ax_eval [e1, e2]
 
-theorem sval_of {H S : List TokenKind} (hH : LitOk H) (hS : SufsOk S) : SValOk (H ++ S) := by
-  intro Z hf n fl d loc cps _ hn
+/-- the simple-value kinds and the suffix kinds, as the `InnerValue` accessors list them -/
+def simpleKinds : List SyntaxKind :=
+  [.Integer, .String, .Code, .Boolean, .Uninitialized, .Bits, .List, .Dag, .Identifier, .ClassValue, .BangOperator,
+   .CondOperator]
+def sufKinds : List SyntaxKind := [.RangeSuffix, .SliceSuffix, .FieldSuffix]
+
+theorem good_innerValue (k : SyntaxKind) (Ks : List SyntaxKind) (hk : simpleKinds.contains k = true)
+    (hKs : ∀ x ∈ Ks, sufKinds.contains x = true) : goodNode .InnerValue (k :: Ks) = true :=
+  goodNode_head_tail .InnerValue _ _ rfl rfl rfl k Ks hk hKs (by decide) 
+
+theorem sval_of {k : SyntaxKind} {Ks : List SyntaxKind} {H S : List TokenKind} (hH : LitOk k H) (hS : SufsOk Ks S)
+    (hk : simpleKinds.contains k = true) (hKs : ∀ x ∈ Ks, sufKinds.contains x = true) : SValOk (H ++ S) := by
+  intro Z hf n fl d loc cps cur ps _ hn
+  have hg : goodNode .InnerValue (pushAll Ks [k]).reverse = true := by
+    rw [pushAll_eq]; simpa using good_innerValue k Ks hk hKs
   simp only [List.length_append] at hn
   obtain ⟨m, rfl⟩ : ∃ m, n = m + 12 := ⟨n - 12, by omega⟩
   have e1 := hH (S ++ Z) (hS.2 Z hf)
-  have e2 := fun n fl d loc cps => hS.1 Z (sval_sufs hf) n fl d loc cps trivial
+  have e2 := fun n fl d loc cps cur ps => hS.1 Z (sval_sufs hf) n fl d loc cps cur ps trivial
   ax_eval [ax_call (f := .inner_value), e1, e2]
 
-theorem paste_nil : PasteOk [] := by
+theorem paste_nil : PasteOk 0 [] := by
   refine ⟨?_, fun Z h => by simpa using (valFollowOk_iff.mp h).1⟩
-  intro Z hf n fl d loc cps _ hn
+  intro Z hf n fl d loc cps cur ps _ hn
   have hP := (valFollowOk_iff.mp hf).2
   obtain ⟨m, rfl⟩ : ∃ m, n = m + 20 := ⟨n - 20, by omega⟩
   rw [ax_loop]
   ax_eval []
 
-theorem paste_cons {R T : List TokenKind} (hR : SValOk R) (hT : PasteOk T) :
-    PasteOk (TokenKind.Paste :: (R ++ T)) := by
+theorem paste_cons {n : Nat} {R T : List TokenKind} (hR : SValOk R) (hT : PasteOk n T) :
+    PasteOk (n + 1) (TokenKind.Paste :: (R ++ T)) := by
   refine ⟨?_, fun Z _ => rfl⟩
-  intro Z hf n fl d loc cps _ hn
+  intro Z hf n fl d loc cps cur ps _ hn
   simp only [List.length_cons, List.length_append] at hn
   obtain ⟨m, rfl⟩ : ∃ m, n = m + 8 := ⟨n - 8, by omega⟩
-  have e1 := fun n fl d loc cps => hR (T ++ Z) (hT.2 Z hf) n fl d loc cps trivial
-  have e2 := fun n fl d loc cps => hT.1 Z hf n fl d loc cps trivial
+  have e1 := fun n fl d loc cps cur ps => hR (T ++ Z) (hT.2 Z hf) n fl d loc cps cur ps trivial
+  have e2 := fun n fl d loc cps cur ps => hT.1 Z hf n fl d loc cps cur ps trivial
   rw [ax_loop]
   ax_eval [e1, e2]
 
-theorem val_of {R T : List TokenKind} (hR : SValOk R) (hT : PasteOk T) : ValOk (R ++ T) := by
-  intro Z hf n fl d loc cps _ hn
+theorem val_of {k : Nat} {R T : List TokenKind} (hR : SValOk R) (hT : PasteOk k T) : ValOk (R ++ T) := by
+  intro Z hf n fl d loc cps cur ps _ hn
+  have hg : goodNode .Value (pushAll (List.replicate k .InnerValue) [.InnerValue]).reverse = true :=
+    good_all_push .Value ⟨"inner_values", .all, [.InnerValue]⟩ rfl rfl (.InnerValue :: List.replicate k .InnerValue)
+      (by intro x hx; rcases List.mem_cons.mp hx with rfl | hx
+          · rfl
+          · rw [List.eq_of_mem_replicate hx]; rfl)
   simp only [List.length_append] at hn
   obtain ⟨m, rfl⟩ : ∃ m, n = m + 12 := ⟨n - 12, by omega⟩
-  have e1 := fun n fl d loc cps => hR (T ++ Z) (hT.2 Z hf) n fl d loc cps trivial
-  have e2 := fun n fl d loc cps => hT.1 Z hf n fl d loc cps trivial
+  have e1 := fun n fl d loc cps cur ps => hR (T ++ Z) (hT.2 Z hf) n fl d loc cps cur ps trivial
+  have e2 := fun n fl d loc cps cur ps => hT.1 Z hf n fl d loc cps cur ps trivial
   ax_eval [ax_call (f := .value), e1, e2]
 
 /-- `simple-value suffixes # …` as one value -/
-theorem val_of_parts {H S T : List TokenKind} (hH : LitOk H) (hS : SufsOk S) (hT : PasteOk T) :
+theorem val_of_parts {k : SyntaxKind} {Ks : List SyntaxKind} {n : Nat} {H S T : List TokenKind}
+    (hH : LitOk k H) (hS : SufsOk Ks S) (hT : PasteOk n T)
+    (hk : simpleKinds.contains k = true) (hKs : ∀ x ∈ Ks, sufKinds.contains x = true) :
     ValOk (H ++ (S ++ T)) := by
-  have := val_of (sval_of hH hS) hT
+  have := val_of (sval_of hH hS hk hKs) hT
   rwa [List.append_assoc] at this
 
-theorem paste_cons_parts {H S T : List TokenKind} (hH : LitOk H) (hS : SufsOk S) (hT : PasteOk T) :
-    PasteOk (TokenKind.Paste :: (H ++ (S ++ T))) := by
-  have := paste_cons (sval_of hH hS) hT
+theorem paste_cons_parts {k : SyntaxKind} {Ks : List SyntaxKind} {n : Nat} {H S T : List TokenKind}
+    (hH : LitOk k H) (hS : SufsOk Ks S) (hT : PasteOk n T)
+    (hk : simpleKinds.contains k = true) (hKs : ∀ x ∈ Ks, sufKinds.contains x = true) :
+    PasteOk (n + 1) (TokenKind.Paste :: (H ++ (S ++ T))) := by
+  have := paste_cons (sval_of hH hS hk hKs) hT
   rwa [List.append_assoc] at this
 
 /-! ### comma-separated lists -/
@@ -167,40 +191,41 @@ theorem joinC_length_pos (R : List TokenKind) (Rs : List (List TokenKind)) (h : 
 
 /-- what the generic loop lemma needs to know about one item -/
 def ItemOk (ctx : Ctx) (stop : List TokenKind) (item : Prog) (C : Nat) (flI : Bool) (Fol : TokenKind → Bool)
-    (R : List TokenKind) : Prop :=
-  Consumes ctx item C flI Fol R ∧ (∀ Z, stop.contains ((R ++ Z).headD .Eof) = false) ∧ 1 ≤ R.length
+    (kI : SyntaxKind) (R : List TokenKind) : Prop :=
+  Consumes ctx item C flI Fol [kI] R ∧ (∀ Z, stop.contains ((R ++ Z).headD .Eof) = false) ∧ 1 ≤ R.length
 
 /-- the loop `while !at(stop) { item; if !eat_if(',') break }` over `R, R', …` -/
 theorem sep_loop (ctx : Ctx) (stop : List TokenKind) (item : Prog) (C : Nat) (flI : Bool) (Fol : TokenKind → Bool)
-    (hFolC : Fol .Comma = true) :
+    (kI : SyntaxKind) (hFolC : Fol .Comma = true) :
     ∀ (Rs : List (List TokenKind)) (R : List TokenKind),
-      (∀ R' ∈ R :: Rs, ItemOk ctx stop item C flI Fol R') →
+      (∀ R' ∈ R :: Rs, ItemOk ctx stop item C flI Fol kI R') →
       ∀ (X : List TokenKind), (X.headD .Eof == .Comma) = false → Fol (X.headD .Eof) = true →
-      ∀ (n : Nat) (fl : Bool) (d : Nat) (loc : List Bool) (cps : List Nat), ctx loc cps →
+      ∀ (n : Nat) (fl : Bool) (d : Nat) (loc : List Bool) (cps : CpStack) (cur : List SyntaxKind) (ps : List (SyntaxKind × List SyntaxKind)), ctx loc cps →
         64 * (joinC R Rs).length + (C + 16) ≤ n →
         ax n (loop (ifAt stop (retB false) (seq item (eatIf .Comma))) nop)
-          ⟨joinC R Rs ++ X, fl, d, loc, cps, true⟩ = some ⟨X, false, d, loc, cps, true⟩ := by
+          ⟨joinC R Rs ++ X, fl, d, loc, cps, true, cur, ps⟩ =
+          some ⟨X, false, d, loc, cps, true, pushAll (List.replicate (Rs.length + 1) kI) cur, ps⟩ := by
   intro Rs
   induction Rs with
   | nil =>
-    intro R hall X hXC hXF n fl d loc cps hctx hn
+    intro R hall X hXC hXF n fl d loc cps cur ps hctx hn
     obtain ⟨hc, hs, hp⟩ := hall R (List.mem_cons_self ..)
     simp only [joinC] at hn ⊢
     obtain ⟨m, rfl⟩ : ∃ m, n = m + 8 := ⟨n - 8, by omega⟩
-    have e1 := fun n fl d => hc X hXF n fl d loc cps hctx
+    have e1 := fun n fl d cur => hc X hXF n fl d loc cps cur ps hctx
     have e0 := hs X
     rw [ax_loop]
-    ax_eval [e1]
+    ax_eval [e1, List.length_nil]
   | cons R' Rs ih =>
-    intro R hall X hXC hXF n fl d loc cps hctx hn
+    intro R hall X hXC hXF n fl d loc cps cur ps hctx hn
     obtain ⟨hc, hs, hp⟩ := hall R (List.mem_cons_self ..)
     simp only [joinC, List.length_append, List.length_cons] at hn ⊢
     obtain ⟨m, rfl⟩ : ∃ m, n = m + 8 := ⟨n - 8, by omega⟩
-    have e1 := fun n fl d => hc (TokenKind.Comma :: (joinC R' Rs ++ X)) hFolC n fl d loc cps hctx
+    have e1 := fun n fl d cur => hc (TokenKind.Comma :: (joinC R' Rs ++ X)) hFolC n fl d loc cps cur ps hctx
     have e0 := hs (TokenKind.Comma :: (joinC R' Rs ++ X))
-    have e2 := fun n fl d => ih R' (fun Q hQ => hall Q (List.mem_cons_of_mem _ hQ)) X hXC hXF n fl d loc cps hctx
+    have e2 := fun n fl d cur => ih R' (fun Q hQ => hall Q (List.mem_cons_of_mem _ hQ)) X hXC hXF n fl d loc cps cur ps hctx
     rw [ax_loop]
-    ax_eval [e1, e2]
+    ax_eval [e1, e2, List.length_cons]
 
 /-! ### delimited value lists: `bra v, v, … ket` -/
 
@@ -220,13 +245,14 @@ theorem starts_not_eof {R : List TokenKind} (h : Starts R) (Z : List TokenKind) 
 /-- the loop of `delimited(bra, ket, ',', value)` over values `R, R', …` -/
 theorem vals_loop (ket : TokenKind) (hk : [TokenKind.RBrace, .RSquare, .RParen].contains ket = true)
     (R : List TokenKind) (Rs : List (List TokenKind)) (hall : ∀ R' ∈ R :: Rs, ValOk R' ∧ Starts R')
-    (X : List TokenKind) (n : Nat) (fl : Bool) (d : Nat) (loc : List Bool) (cps : List Nat)
+    (X : List TokenKind) (n : Nat) (fl : Bool) (d : Nat) (loc : List Bool) (cps : CpStack) (cur : List SyntaxKind) (ps : List (SyntaxKind × List SyntaxKind))
     (hn : 64 * (joinC R Rs).length + 304 ≤ n) :
     ax n (loop (ifAt [ket, .Eof] (retB false) (seq (call .value) (eatIf .Comma))) nop)
-      ⟨joinC R Rs ++ ket :: X, fl, d, loc, cps, true⟩ = some ⟨ket :: X, false, d, loc, cps, true⟩ := by
+      ⟨joinC R Rs ++ ket :: X, fl, d, loc, cps, true, cur, ps⟩ =
+      some ⟨ket :: X, false, d, loc, cps, true, pushAll (List.replicate (Rs.length + 1) .Value) cur, ps⟩ := by
   have hk' : ket = .RBrace ∨ ket = .RSquare ∨ ket = .RParen := by simpa using hk
-  refine sep_loop anyCtx [ket, .Eof] (call .value) 288 true valFollowOk valFollowOk_comma Rs R ?_ (ket :: X) ?_ ?_
-    n fl d loc cps trivial hn
+  refine sep_loop anyCtx [ket, .Eof] (call .value) 288 true valFollowOk .Value valFollowOk_comma Rs R ?_ (ket :: X) ?_ ?_
+    n fl d loc cps cur ps trivial hn
   · intro R' hR'
     obtain ⟨hv, hs⟩ := hall R' hR'
     exact ⟨hv, starts_not_close hs ket (by rcases hk' with rfl | rfl | rfl <;> rfl), hs.pos⟩
@@ -235,13 +261,13 @@ theorem vals_loop (ket : TokenKind) (hk : [TokenKind.RBrace, .RSquare, .RParen].
 
 /-! ### suffixes -/
 
-theorem suf_field : SufOk [TokenKind.Dot, TokenKind.Id] := by
-  intro Z _ n fl d loc cps _ hn
+theorem suf_field : SufOk .FieldSuffix [TokenKind.Dot, TokenKind.Id] := by
+  intro Z _ n fl d loc cps cur ps _ hn
   obtain ⟨m, rfl⟩ : ∃ m, n = m + 40 := ⟨n - 40, by omega⟩
   ax_eval [ax_call]
 
-theorem suf_range (r : RangeList) : SufOk (TokenKind.LBrace :: (r.render ++ [TokenKind.RBrace])) := by
-  intro Z _ n fl d loc cps _ hn
+theorem suf_range (r : RangeList) : SufOk .RangeSuffix (TokenKind.LBrace :: (r.render ++ [TokenKind.RBrace])) := by
+  intro Z _ n fl d loc cps cur ps _ hn
   simp only [List.length_cons, List.length_append, List.length_nil] at hn
   obtain ⟨m, rfl⟩ : ∃ m, n = m + 40 := ⟨n - 40, by omega⟩
   ax_eval [ax_call (f := .value_suffix), ax_call (f := .range_suffix), c_range_list]
@@ -249,7 +275,7 @@ theorem suf_range (r : RangeList) : SufOk (TokenKind.LBrace :: (r.render ++ [Tok
 /-- after a slice element comes `,` or `]` -/
 def elemFollow (k : TokenKind) : Bool := k == .Comma || k == .RSquare
 
-def ElemOk (R : List TokenKind) : Prop := Consumes anyCtx (call .slice_element) 304 true elemFollow R
+def ElemOk (R : List TokenKind) : Prop := Consumes anyCtx (call .slice_element) 304 true elemFollow [.SliceElement] R
 
 theorem elemFollow_facts {k : TokenKind} (h : elemFollow k = true) :
     valFollowOk k = true ∧ [TokenKind.DotDotDot, .Minus].contains k = false ∧ [TokenKind.IntVal].contains k = false := by
@@ -257,38 +283,38 @@ theorem elemFollow_facts {k : TokenKind} (h : elemFollow k = true) :
   rcases this with rfl | rfl <;> exact ⟨rfl, rfl, rfl⟩
 
 theorem elem_single {R : List TokenKind} (hR : ValOk R) : ElemOk R := by
-  intro Z hf n fl d loc cps _ hn
+  intro Z hf n fl d loc cps cur ps _ hn
   obtain ⟨hv, h1, h2⟩ := elemFollow_facts hf
   obtain ⟨m, rfl⟩ : ∃ m, n = m + 12 := ⟨n - 12, by omega⟩
-  have e1 := fun n fl d loc cps => hR Z hv n fl d loc cps trivial
+  have e1 := fun n fl d loc cps cur ps => hR Z hv n fl d loc cps cur ps trivial
   ax_eval [ax_call (f := .slice_element), e1]
 
 theorem elem_dots {A B : List TokenKind} (hA : ValOk A) (hB : ValOk B) :
     ElemOk (A ++ TokenKind.DotDotDot :: B) := by
-  intro Z hf n fl d loc cps _ hn
+  intro Z hf n fl d loc cps cur ps _ hn
   obtain ⟨hv, _, _⟩ := elemFollow_facts hf
   simp only [List.length_append, List.length_cons] at hn
   obtain ⟨m, rfl⟩ : ∃ m, n = m + 12 := ⟨n - 12, by omega⟩
-  have e1 := fun n fl d loc cps => hA (TokenKind.DotDotDot :: (B ++ Z)) rfl n fl d loc cps trivial
-  have e2 := fun n fl d loc cps => hB Z hv n fl d loc cps trivial
+  have e1 := fun n fl d loc cps cur ps => hA (TokenKind.DotDotDot :: (B ++ Z)) rfl n fl d loc cps cur ps trivial
+  have e2 := fun n fl d loc cps cur ps => hB Z hv n fl d loc cps cur ps trivial
   ax_eval [ax_call (f := .slice_element), e1, e2]
 
 theorem elem_minus {A B : List TokenKind} (hA : ValOk A) (hB : ValOk B) :
     ElemOk (A ++ TokenKind.Minus :: B) := by
-  intro Z hf n fl d loc cps _ hn
+  intro Z hf n fl d loc cps cur ps _ hn
   obtain ⟨hv, _, _⟩ := elemFollow_facts hf
   simp only [List.length_append, List.length_cons] at hn
   obtain ⟨m, rfl⟩ : ∃ m, n = m + 12 := ⟨n - 12, by omega⟩
-  have e1 := fun n fl d loc cps => hA (TokenKind.Minus :: (B ++ Z)) rfl n fl d loc cps trivial
-  have e2 := fun n fl d loc cps => hB Z hv n fl d loc cps trivial
+  have e1 := fun n fl d loc cps cur ps => hA (TokenKind.Minus :: (B ++ Z)) rfl n fl d loc cps cur ps trivial
+  have e2 := fun n fl d loc cps cur ps => hB Z hv n fl d loc cps cur ps trivial
   ax_eval [ax_call (f := .slice_element), e1, e2]
 
 theorem elem_juxt {A : List TokenKind} (hA : ValOk A) : ElemOk (A ++ [TokenKind.IntVal]) := by
-  intro Z hf n fl d loc cps _ hn
+  intro Z hf n fl d loc cps cur ps _ hn
   simp only [List.length_append, List.length_cons, List.length_nil] at hn
   obtain ⟨m, rfl⟩ : ∃ m, n = m + 20 := ⟨n - 20, by omega⟩
-  have e1 := fun n fl d loc cps => hA (TokenKind.IntVal :: Z) rfl n fl d loc cps trivial
-  have e2 := fun n fl d loc cps => c_integer Z fl d loc cps false n
+  have e1 := fun n fl d loc cps cur ps => hA (TokenKind.IntVal :: Z) rfl n fl d loc cps cur ps trivial
+  have e2 := fun n fl d loc cps cur ps => c_integer Z fl d loc cps cur ps false n
   simp only [intKind_false] at e2
   ax_eval [ax_call (f := .slice_element), e1, e2]
 
@@ -297,89 +323,93 @@ def sliceLoop : Prog :=
   loop (ifAt [.Eof] (retB false)
     (seq (call .slice_element) (seq (eatIf .Comma) (ifFlag (ifAt [.RSquare] (retB false) (retB true)) (retB false))))) nop
 
-def SliceOk (E : List TokenKind) : Prop :=
-  ∀ (X : List TokenKind) (n : Nat) (fl : Bool) (d : Nat) (loc : List Bool) (cps : List Nat),
+def SliceOk (k : Nat) (E : List TokenKind) : Prop :=
+  ∀ (X : List TokenKind) (n : Nat) (fl : Bool) (d : Nat) (loc : List Bool) (cps : CpStack) (cur : List SyntaxKind) (ps : List (SyntaxKind × List SyntaxKind)),
     64 * E.length + 320 ≤ n →
-    ax n sliceLoop ⟨E ++ TokenKind.RSquare :: X, fl, d, loc, cps, true⟩ =
-      some ⟨TokenKind.RSquare :: X, false, d, loc, cps, true⟩
+    ax n sliceLoop ⟨E ++ TokenKind.RSquare :: X, fl, d, loc, cps, true, cur, ps⟩ =
+      some ⟨TokenKind.RSquare :: X, false, d, loc, cps, true, pushAll (List.replicate k .SliceElement) cur, ps⟩
 
 theorem slice_one {R : List TokenKind} (hR : ElemOk R) (hs : Starts R) (t : Bool) :
-    SliceOk (R ++ (if t then [TokenKind.Comma] else [])) := by
-  intro X n fl d loc cps hn
+    SliceOk 1 (R ++ (if t then [TokenKind.Comma] else [])) := by
+  intro X n fl d loc cps cur ps hn
   have h0 := starts_not_eof hs
   cases t with
   | false =>
     simp only [Bool.false_eq_true, if_false, List.append_nil] at hn ⊢
     obtain ⟨m, rfl⟩ : ∃ m, n = m + 12 := ⟨n - 12, by omega⟩
-    have e1 := fun n fl d loc cps => hR (TokenKind.RSquare :: X) rfl n fl d loc cps trivial
+    have e1 := fun n fl d loc cps cur ps => hR (TokenKind.RSquare :: X) rfl n fl d loc cps cur ps trivial
     unfold sliceLoop
     rw [ax_loop]
     ax_eval [e1]
   | true =>
     simp only [if_true, List.length_append, List.length_cons, List.length_nil] at hn ⊢
     obtain ⟨m, rfl⟩ : ∃ m, n = m + 12 := ⟨n - 12, by omega⟩
-    have e1 := fun n fl d loc cps => hR (TokenKind.Comma :: TokenKind.RSquare :: X) rfl n fl d loc cps trivial
+    have e1 := fun n fl d loc cps cur ps => hR (TokenKind.Comma :: TokenKind.RSquare :: X) rfl n fl d loc cps cur ps trivial
     unfold sliceLoop
     rw [ax_loop]
     ax_eval [e1]
 
-theorem slice_cons {R E : List TokenKind} (hR : ElemOk R) (hs : Starts R) (hE : SliceOk E) (hEs : Starts E) :
-    SliceOk (R ++ TokenKind.Comma :: E) := by
-  intro X n fl d loc cps hn
+theorem slice_cons {k : Nat} {R E : List TokenKind} (hR : ElemOk R) (hs : Starts R) (hE : SliceOk k E) (hEs : Starts E) :
+    SliceOk (k + 1) (R ++ TokenKind.Comma :: E) := by
+  intro X n fl d loc cps cur ps hn
   have h0 := starts_not_eof hs
   have h1 : ∀ Z, [TokenKind.RSquare].contains ((E ++ Z).headD .Eof) = false :=
     fun Z => notin_of_mem (hEs Z) (by decide)
   simp only [List.length_append, List.length_cons] at hn
   obtain ⟨m, rfl⟩ : ∃ m, n = m + 12 := ⟨n - 12, by omega⟩
-  have e1 := fun n fl d loc cps => hR (TokenKind.Comma :: (E ++ TokenKind.RSquare :: X)) rfl n fl d loc cps trivial
-  have e2 := fun n fl d loc cps => hE X n fl d loc cps
+  have e1 := fun n fl d loc cps cur ps => hR (TokenKind.Comma :: (E ++ TokenKind.RSquare :: X)) rfl n fl d loc cps cur ps trivial
+  have e2 := fun n fl d loc cps cur ps => hE X n fl d loc cps cur ps
   unfold sliceLoop at e2 ⊢
   rw [ax_loop]
   ax_eval [e1, e2]
 
-theorem suf_slice {E : List TokenKind} (hE : SliceOk E) : SufOk (TokenKind.LSquare :: (E ++ [TokenKind.RSquare])) := by
-  intro Z _ n fl d loc cps _ hn
+theorem suf_slice {k : Nat} {E : List TokenKind} (hE : SliceOk k E) :
+    SufOk .SliceSuffix (TokenKind.LSquare :: (E ++ [TokenKind.RSquare])) := by
+  intro Z _ n fl d loc cps cur ps _ hn
+  have hg : goodNode .SliceElements (pushAll (List.replicate k .SliceElement) []).reverse = true :=
+    good_all_push .SliceElements ⟨"elements", .all, [.SliceElement]⟩ rfl rfl _
+      (by intro x hx; rw [List.eq_of_mem_replicate hx]; rfl)
   simp only [List.length_cons, List.length_append, List.length_nil] at hn
   obtain ⟨m, rfl⟩ : ∃ m, n = m + 40 := ⟨n - 40, by omega⟩
-  have e1 := fun n fl d loc cps => hE Z n fl d loc cps
+  have e1 := fun n fl d loc cps cur ps => hE Z n fl d loc cps cur ps
   unfold sliceLoop at e1
   ax_eval [ax_call (f := .value_suffix), ax_call (f := .slice_suffix), ax_call (f := .slice_elements), e1]
 
 /-! ### simple values: literals -/
 
-theorem lit_int (b : Bool) : LitOk [intKind b] := by
-  intro Z _ n fl d loc cps _ hn
+theorem lit_int (b : Bool) : LitOk .Integer [intKind b] := by
+  intro Z _ n fl d loc cps cur ps _ hn
   obtain ⟨m, rfl⟩ : ∃ m, n = m + 40 := ⟨n - 40, by omega⟩
   cases b <;> ax_eval [ax_call, simpleValueArms, intKind_true, intKind_false]
 
-theorem lit_str : LitOk [TokenKind.StrVal] := by
-  intro Z hf n fl d loc cps _ hn
+theorem lit_str : LitOk .String [TokenKind.StrVal] := by
+  intro Z hf n fl d loc cps cur ps _ hn
   obtain ⟨hS, _⟩ := litFollowOk_iff.mp hf
   obtain ⟨m, rfl⟩ : ∃ m, n = m + 40 := ⟨n - 40, by omega⟩
   ax_eval [ax_call, ax_loop, simpleValueArms, hS]
 
-theorem lit_code : LitOk [TokenKind.CodeFragment] := by
-  intro Z _ n fl d loc cps _ hn
+theorem lit_code : LitOk .Code [TokenKind.CodeFragment] := by
+  intro Z _ n fl d loc cps cur ps _ hn
   obtain ⟨m, rfl⟩ : ∃ m, n = m + 40 := ⟨n - 40, by omega⟩
   ax_eval [ax_call, simpleValueArms]
 
-theorem lit_tru : LitOk [TokenKind.TrueVal] := by
-  intro Z _ n fl d loc cps _ hn
+theorem lit_tru : LitOk .Boolean [TokenKind.TrueVal] := by
+  intro Z _ n fl d loc cps cur ps _ hn
   obtain ⟨m, rfl⟩ : ∃ m, n = m + 40 := ⟨n - 40, by omega⟩
   ax_eval [ax_call, simpleValueArms]
 
-theorem lit_fls : LitOk [TokenKind.FalseVal] := by
-  intro Z _ n fl d loc cps _ hn
+theorem lit_fls : LitOk .Boolean [TokenKind.FalseVal] := by
+  intro Z _ n fl d loc cps cur ps _ hn
   obtain ⟨m, rfl⟩ : ∃ m, n = m + 40 := ⟨n - 40, by omega⟩
   ax_eval [ax_call, simpleValueArms]
 
-theorem lit_uninit : LitOk [TokenKind.Question] := by
-  intro Z _ n fl d loc cps _ hn
+theorem lit_uninit : LitOk .Uninitialized [TokenKind.Question] := by
+  intro Z _ n fl d loc cps cur ps _ hn
   obtain ⟨m, rfl⟩ : ∃ m, n = m + 40 := ⟨n - 40, by omega⟩
   ax_eval [ax_call, simpleValueArms]
 
-theorem lit_id : LitOk [TokenKind.Id] := by
-  intro Z hf n fl d loc cps h0 hn
+theorem lit_id : LitOk .Identifier [TokenKind.Id] := by
+  intro Z hf n fl d loc cps cur ps h0 hn
   obtain ⟨_, hL⟩ := litFollowOk_iff.mp hf
   obtain ⟨m, rfl⟩ : ∃ m, n = m + 40 := ⟨n - 40, by omega⟩
   ax_eval [ax_call, simpleValueArms, hL]
@@ -395,40 +425,60 @@ theorem starts_joinC {R : List TokenKind} (h : Starts R) (Rs : List (List TokenK
 theorem value_list (bra ket : TokenKind) (hb : (bra == .Error) = false)
     (hk : [TokenKind.RBrace, .RSquare, .RParen].contains ket = true)
     (R : List TokenKind) (Rs : List (List TokenKind)) (hall : ∀ R' ∈ R :: Rs, ValOk R' ∧ Starts R')
-    (X : List TokenKind) (n : Nat) (fl : Bool) (d : Nat) (loc : List Bool) (cps : List Nat)
+    (X : List TokenKind) (n : Nat) (fl : Bool) (d : Nat) (loc : List Bool) (cps : CpStack) (cur : List SyntaxKind) (ps : List (SyntaxKind × List SyntaxKind))
     (hn : 64 * (joinC R Rs).length + 320 ≤ n) :
-    ax n (valueList bra ket) ⟨bra :: (joinC R Rs ++ ket :: X), fl, d, loc, cps, true⟩ =
-      some ⟨X, false, d, loc, cps, true⟩ := by
+    ax n (valueList bra ket) ⟨bra :: (joinC R Rs ++ ket :: X), fl, d, loc, cps, true, cur, ps⟩ =
+      some ⟨X, false, d, loc, cps, true, .ValueList :: cur, ps⟩ := by
   obtain ⟨m, rfl⟩ : ∃ m, n = m + 12 := ⟨n - 12, by omega⟩
-  have e1 := fun n fl d loc cps => vals_loop ket hk R Rs hall X n fl d loc cps
+  have hg : goodNode .ValueList (pushAll (List.replicate Rs.length .Value) [.Value]).reverse = true :=
+    good_all_push .ValueList ⟨"values", .all, [.Value]⟩ rfl rfl (List.replicate (Rs.length + 1) .Value)
+      (by intro x hx; rw [List.eq_of_mem_replicate hx]; rfl)
+  have e1 := fun n fl d loc cps cur ps => vals_loop ket hk R Rs hall X n fl d loc cps cur ps
   have hke : (ket == .Error) = false := by
     have hk' : ket = .RBrace ∨ ket = .RSquare ∨ ket = .RParen := by simpa using hk
     rcases hk' with rfl | rfl | rfl <;> rfl
   ax_eval [valueList, e1]
 
 theorem lit_bits (R : List TokenKind) (Rs : List (List TokenKind)) (hall : ∀ R' ∈ R :: Rs, ValOk R' ∧ Starts R') :
-    LitOk (TokenKind.LBrace :: (joinC R Rs ++ [TokenKind.RBrace])) := by
-  intro Z _ n fl d loc cps _ hn
+    LitOk .Bits (TokenKind.LBrace :: (joinC R Rs ++ [TokenKind.RBrace])) := by
+  intro Z _ n fl d loc cps cur ps _ hn
   simp only [List.length_cons, List.length_append, List.length_nil] at hn
   obtain ⟨m, rfl⟩ : ∃ m, n = m + 40 := ⟨n - 40, by omega⟩
-  have e1 := fun n fl d loc cps => value_list .LBrace .RBrace rfl rfl R Rs hall Z n fl d loc cps
+  have e1 := fun n fl d loc cps cur ps => value_list .LBrace .RBrace rfl rfl R Rs hall Z n fl d loc cps cur ps
   ax_eval [ax_call, simpleValueArms, e1]
 
 theorem lit_list (R : List TokenKind) (Rs : List (List TokenKind)) (hall : ∀ R' ∈ R :: Rs, ValOk R' ∧ Starts R') :
-    LitOk (TokenKind.LSquare :: (joinC R Rs ++ [TokenKind.RSquare])) := by
-  intro Z hf n fl d loc cps _ hn
+    LitOk .List (TokenKind.LSquare :: (joinC R Rs ++ [TokenKind.RSquare])) := by
+  intro Z hf n fl d loc cps cur ps _ hn
   obtain ⟨_, hL⟩ := litFollowOk_iff.mp hf
   simp only [List.length_cons, List.length_append, List.length_nil] at hn
   obtain ⟨m, rfl⟩ : ∃ m, n = m + 40 := ⟨n - 40, by omega⟩
-  have e1 := fun n fl d loc cps => value_list .LSquare .RSquare rfl rfl R Rs hall Z n fl d loc cps
+  have e1 := fun n fl d loc cps cur ps => value_list .LSquare .RSquare rfl rfl R Rs hall Z n fl d loc cps cur ps
   ax_eval [ax_call, simpleValueArms, e1, hL]
 
 /-! ### bang operators -/
 
+theorem mem_rep_value {n : Nat} {x : SyntaxKind} (hx : x ∈ SyntaxKind.Value :: List.replicate n SyntaxKind.Value) :
+    x = SyntaxKind.Value := by
+  rcases List.mem_cons.mp hx with rfl | hx
+  · rfl
+  · exact List.eq_of_mem_replicate hx
+
+theorem good_bang_none (n : Nat) :
+    goodNode .BangOperator (pushAll (List.replicate n .Value) [.Value]).reverse = true := by
+  rw [pushAll_reverse]
+  exact goodNode_tail_only .BangOperator _ _ rfl rfl _ (by intro x hx; rw [mem_rep_value hx]; rfl)
+
+theorem good_bang_some (t : Ty) (n : Nat) :
+    goodNode .BangOperator (pushAll (List.replicate n .Value) [.Value, t.nk]).reverse = true := by
+  rw [pushAll_reverse]
+  exact goodNode_head_tail .BangOperator _ _ rfl rfl rfl t.nk _ (by cases t <;> rfl)
+    (by intro x hx; rw [mem_rep_value hx]; rfl) trivial
+
 theorem lit_bang (k : TokenKind) (hk : Tables.bangOps.contains k = true) (ty : Option DTy)
     (R : List TokenKind) (Rs : List (List TokenKind)) (hall : ∀ R' ∈ R :: Rs, ValOk R' ∧ Starts R') :
-    LitOk (k :: (optTy ty ++ TokenKind.LParen :: (joinC R Rs ++ [TokenKind.RParen]))) := by
-  intro Z _ n fl d loc cps _ hn
+    LitOk .BangOperator (k :: (optTy ty ++ TokenKind.LParen :: (joinC R Rs ++ [TokenKind.RParen]))) := by
+  intro Z _ n fl d loc cps cur ps _ hn
   have f1 : [TokenKind.IntVal, .BinaryIntVal].contains k = false := notin_of_mem hk (by decide)
   have f2 : [TokenKind.StrVal].contains k = false := notin_of_mem hk (by decide)
   have f3 : [TokenKind.CodeFragment].contains k = false := notin_of_mem hk (by decide)
@@ -439,7 +489,8 @@ theorem lit_bang (k : TokenKind) (hk : Tables.bangOps.contains k = true) (ty : O
   have f8 : [TokenKind.LParen].contains k = false := notin_of_mem hk (by decide)
   have f9 : [TokenKind.Id].contains k = false := notin_of_mem hk (by decide)
   have fE : (k == TokenKind.Error) = false := ne_of_mem hk (by decide)
-  have e1 := fun n fl d loc cps => vals_loop .RParen rfl R Rs hall Z n fl d loc cps
+  have e1 := fun n fl d loc cps cur ps => vals_loop .RParen rfl R Rs hall Z n fl d loc cps cur ps
+  have hg1 := good_bang_none Rs.length
   cases ty with
   | none =>
     simp only [optTy, List.nil_append, List.length_cons, List.length_append, List.length_nil] at hn ⊢
@@ -447,6 +498,7 @@ theorem lit_bang (k : TokenKind) (hk : Tables.bangOps.contains k = true) (ty : O
     ax_eval [ax_call, simpleValueArms, e1]
   | some t =>
     obtain ⟨t, ht⟩ := t
+    have hg2 := good_bang_some t Rs.length
     simp only [optTy, DTy.render, List.length_cons, List.length_append, List.length_nil] at hn ⊢
     obtain ⟨m, rfl⟩ : ∃ m, n = m + 60 := ⟨n - 60, by omega⟩
     ax_eval [ax_call (f := .simple_value), ax_call (f := .bang_operator), simpleValueArms, e1, c_type]
@@ -455,37 +507,40 @@ theorem lit_bang (k : TokenKind) (hk : Tables.bangOps.contains k = true) (ty : O
 
 def clauseFollow (k : TokenKind) : Bool := k == .Comma || k == .RParen
 
-def ClauseOk (R : List TokenKind) : Prop := Consumes anyCtx (call .cond_clause) 304 true clauseFollow R
+def ClauseOk (R : List TokenKind) : Prop := Consumes anyCtx (call .cond_clause) 304 true clauseFollow [.CondClause] R
 
 theorem clause_of {C V : List TokenKind} (hC : ValOk C) (hV : ValOk V) : ClauseOk (C ++ TokenKind.Colon :: V) := by
-  intro Z hf n fl d loc cps _ hn
+  intro Z hf n fl d loc cps cur ps _ hn
   have hv : valFollowOk (Z.headD .Eof) = true := by
     have : Z.headD .Eof = .Comma ∨ Z.headD .Eof = .RParen := by simpa [clauseFollow] using hf
     rcases this with h | h <;> rw [h] <;> rfl
   simp only [List.length_append, List.length_cons] at hn
   obtain ⟨m, rfl⟩ : ∃ m, n = m + 12 := ⟨n - 12, by omega⟩
-  have e1 := fun n fl d loc cps => hC (TokenKind.Colon :: (V ++ Z)) rfl n fl d loc cps trivial
-  have e2 := fun n fl d loc cps => hV Z hv n fl d loc cps trivial
+  have e1 := fun n fl d loc cps cur ps => hC (TokenKind.Colon :: (V ++ Z)) rfl n fl d loc cps cur ps trivial
+  have e2 := fun n fl d loc cps cur ps => hV Z hv n fl d loc cps cur ps trivial
   ax_eval [ax_call (f := .cond_clause), e1, e2]
 
 theorem lit_cond (R : List TokenKind) (Rs : List (List TokenKind)) (hall : ∀ R' ∈ R :: Rs, ClauseOk R' ∧ Starts R') :
-    LitOk (TokenKind.XCond :: TokenKind.LParen :: (joinC R Rs ++ [TokenKind.RParen])) := by
-  intro Z _ n fl d loc cps _ hn
+    LitOk .CondOperator (TokenKind.XCond :: TokenKind.LParen :: (joinC R Rs ++ [TokenKind.RParen])) := by
+  intro Z _ n fl d loc cps cur ps _ hn
   simp only [List.length_cons, List.length_append, List.length_nil] at hn
   obtain ⟨m, rfl⟩ : ∃ m, n = m + 60 := ⟨n - 60, by omega⟩
-  have e1 := fun n fl d loc cps => sep_loop anyCtx [.RParen, .Eof] (call .cond_clause) 304 true clauseFollow rfl Rs R
+  have hg : goodNode .CondOperator (pushAll (List.replicate Rs.length .CondClause) [.CondClause]).reverse = true :=
+    good_all_push .CondOperator ⟨"clauses", .all, [.CondClause]⟩ rfl rfl (List.replicate (Rs.length + 1) .CondClause)
+      (by intro x hx; rw [List.eq_of_mem_replicate hx]; rfl)
+  have e1 := fun n fl d loc cps cur ps => sep_loop anyCtx [.RParen, .Eof] (call .cond_clause) 304 true clauseFollow .CondClause rfl Rs R
     (fun R' hR' => ⟨(hall R' hR').1, starts_not_close (hall R' hR').2 .RParen rfl, (hall R' hR').2.pos⟩)
-    (TokenKind.RParen :: Z) rfl rfl n fl d loc cps trivial
+    (TokenKind.RParen :: Z) rfl rfl n fl d loc cps cur ps trivial
   ax_eval [ax_call, simpleValueArms, e1]
 
 /-! ### class values `Id<v, …>` -/
 
 def argFollow (k : TokenKind) : Bool := k == .Comma || k == .Greater
 
-def ArgOk (R : List TokenKind) : Prop := Consumes argCtx (call .arg_value) 304 false argFollow R
+def ArgOk (R : List TokenKind) : Prop := Consumes argCtx (call .arg_value) 304 false argFollow [.PositionalArgValue] R
 
 theorem arg_of_val {R : List TokenKind} (hR : ValOk R) : ArgOk R := by
-  intro Z hf n fl d loc cps hctx hn
+  intro Z hf n fl d loc cps cur ps hctx hn
   obtain ⟨hl, h0⟩ := hctx
   have hZ : Z.headD .Eof = .Comma ∨ Z.headD .Eof = .Greater := by simpa [argFollow] using hf
   have hv : valFollowOk (Z.headD .Eof) = true := by rcases hZ with h | h <;> rw [h] <;> rfl
@@ -496,47 +551,50 @@ theorem arg_of_val {R : List TokenKind} (hR : ValOk R) : ArgOk R := by
     have hb : b = false := by simpa using hl
     subst hb
     obtain ⟨m, rfl⟩ : ∃ m, n = m + 16 := ⟨n - 16, by omega⟩
-    have e1 := fun n fl d loc cps => hR Z hv n fl d loc cps trivial
+    have e1 := fun n fl d loc cps cur ps => hR Z hv n fl d loc cps cur ps trivial
     ax_eval [ax_call (f := .arg_value), e1]
 
 theorem starts_valueStart {R : List TokenKind} (h : Starts R) (Z : List TokenKind) :
     Tables.valueStart.contains ((R ++ Z).headD .Eof) = true := in_of_mem (h Z) (by decide)
 
 /-- `arg_value_list` on no arguments (before the closing `>`) -/
-theorem avl_nil (X : List TokenKind) (n : Nat) (fl : Bool) (d : Nat) (loc : List Bool) (cps : List Nat)
+theorem avl_nil (X : List TokenKind) (n : Nat) (fl : Bool) (d : Nat) (loc : List Bool) (cps : CpStack) (cur : List SyntaxKind) (ps : List (SyntaxKind × List SyntaxKind))
     (hn : 336 ≤ n) :
-    ax n (call .arg_value_list) ⟨TokenKind.Greater :: X, fl, d, loc, cps, true⟩ =
-      some ⟨TokenKind.Greater :: X, fl, d, loc, cps, true⟩ := by
+    ax n (call .arg_value_list) ⟨TokenKind.Greater :: X, fl, d, loc, cps, true, cur, ps⟩ =
+      some ⟨TokenKind.Greater :: X, fl, d, loc, cps, true, .ArgValueList :: cur, ps⟩ := by
   obtain ⟨m, rfl⟩ : ∃ m, n = m + 20 := ⟨n - 20, by omega⟩
   ax_eval [ax_call]
 
 /-- `arg_value_list` on positional arguments `R, R', …` -/
 theorem avl_items (R : List TokenKind) (Rs : List (List TokenKind)) (hall : ∀ R' ∈ R :: Rs, ValOk R' ∧ Starts R')
-    (X : List TokenKind) (n : Nat) (fl : Bool) (d : Nat) (loc : List Bool) (cps : List Nat)
+    (X : List TokenKind) (n : Nat) (fl : Bool) (d : Nat) (loc : List Bool) (cps : CpStack) (cur : List SyntaxKind) (ps : List (SyntaxKind × List SyntaxKind))
     (hn : 64 * (joinC R Rs).length + 336 ≤ n) :
-    ax n (call .arg_value_list) ⟨joinC R Rs ++ TokenKind.Greater :: X, fl, d, loc, cps, true⟩ =
-      some ⟨TokenKind.Greater :: X, false, d, loc, cps, true⟩ := by
+    ax n (call .arg_value_list) ⟨joinC R Rs ++ TokenKind.Greater :: X, fl, d, loc, cps, true, cur, ps⟩ =
+      some ⟨TokenKind.Greater :: X, false, d, loc, cps, true, .ArgValueList :: cur, ps⟩ := by
   obtain ⟨m, rfl⟩ : ∃ m, n = m + 12 := ⟨n - 12, by omega⟩
+  have hg : goodNode .ArgValueList (pushAll (List.replicate Rs.length .PositionalArgValue) [.PositionalArgValue]).reverse = true :=
+    good_all_push .ArgValueList ⟨"arg_values", .all, [.PositionalArgValue, .NamedArgValue]⟩ rfl rfl
+      (List.replicate (Rs.length + 1) .PositionalArgValue) (by intro x hx; rw [List.eq_of_mem_replicate hx]; rfl)
   have hs := starts_valueStart (starts_joinC (hall R (List.mem_cons_self ..)).2 Rs)
-  have e1 := fun n fl d => sep_loop argCtx [.Eof] (call .arg_value) 304 false argFollow rfl Rs R
+  have e1 := fun n fl d => sep_loop argCtx [.Eof] (call .arg_value) 304 false argFollow .PositionalArgValue rfl Rs R
     (fun R' hR' => ⟨arg_of_val (hall R' hR').1, starts_not_eof (hall R' hR').2, (hall R' hR').2.pos⟩)
-    (TokenKind.Greater :: X) rfl rfl n fl d (false :: loc) (cpsUp cps) ⟨rfl, cpsUp_contains_zero cps⟩
+    (TokenKind.Greater :: X) rfl rfl n fl d (false :: loc) (cpsUp cps) [] ((SyntaxKind.ArgValueList, cur) :: ps) ⟨rfl, hasTop_cpsUp cps⟩
   ax_eval [ax_call (f := .arg_value_list), e1]
 
-theorem lit_classVal_nil : LitOk [TokenKind.Id, TokenKind.Less, TokenKind.Greater] := by
-  intro Z _ n fl d loc cps h0 hn
+theorem lit_classVal_nil : LitOk .ClassValue [TokenKind.Id, TokenKind.Less, TokenKind.Greater] := by
+  intro Z _ n fl d loc cps cur ps h0 hn
   simp only [List.length_cons, List.length_nil] at hn
   obtain ⟨m, rfl⟩ : ∃ m, n = m + 60 := ⟨n - 60, by omega⟩
-  have e1 := fun n fl d loc cps => avl_nil Z n fl d loc cps
+  have e1 := fun n fl d loc cps cur ps => avl_nil Z n fl d loc cps cur ps
   ax_eval [ax_call (f := .simple_value), ax_call (f := .identifier_or_class_value), ax_call (f := .identifier),
     simpleValueArms, classValueTail, e1]
 
 theorem lit_classVal (R : List TokenKind) (Rs : List (List TokenKind)) (hall : ∀ R' ∈ R :: Rs, ValOk R' ∧ Starts R') :
-    LitOk (TokenKind.Id :: TokenKind.Less :: (joinC R Rs ++ [TokenKind.Greater])) := by
-  intro Z _ n fl d loc cps h0 hn
+    LitOk .ClassValue (TokenKind.Id :: TokenKind.Less :: (joinC R Rs ++ [TokenKind.Greater])) := by
+  intro Z _ n fl d loc cps cur ps h0 hn
   simp only [List.length_cons, List.length_append, List.length_nil] at hn
   obtain ⟨m, rfl⟩ : ∃ m, n = m + 60 := ⟨n - 60, by omega⟩
-  have e1 := fun n fl d loc cps => avl_items R Rs hall Z n fl d loc cps
+  have e1 := fun n fl d loc cps cur ps => avl_items R Rs hall Z n fl d loc cps cur ps
   ax_eval [ax_call (f := .simple_value), ax_call (f := .identifier_or_class_value), ax_call (f := .identifier),
     simpleValueArms, classValueTail, e1]
 
@@ -552,12 +610,12 @@ theorem dagFollow_iff {k : TokenKind} : dagFollow k = true ↔ (valFollowOk k = 
   simp [dagFollow]
 
 /-- an argument `v` or `$x` (followed by something `dagFollow` accepts) -/
-def DagArgOk (R : List TokenKind) : Prop := Consumes anyCtx (call .dagarg) 304 true dagFollow R
+def DagArgOk (R : List TokenKind) : Prop := Consumes anyCtx (call .dagarg) 304 true dagFollow [.DagArg] R
 /-- an argument `v:$x` (followed by anything) -/
-def DagArgNOk (R : List TokenKind) : Prop := Consumes anyCtx (call .dagarg) 304 true anyFollow R
+def DagArgNOk (R : List TokenKind) : Prop := Consumes anyCtx (call .dagarg) 304 true anyFollow [.DagArg] R
 
 theorem dagarg_var : DagArgOk [TokenKind.VarName] := by
-  intro Z _ n fl d loc cps _ hn
+  intro Z _ n fl d loc cps cur ps _ hn
   obtain ⟨m, rfl⟩ : ∃ m, n = m + 20 := ⟨n - 20, by omega⟩
   ax_eval [ax_call]
 
@@ -565,20 +623,20 @@ theorem starts_not_var {R : List TokenKind} (h : Starts R) (Z : List TokenKind) 
     ((R ++ Z).headD .Eof == TokenKind.VarName) = false := ne_of_mem (h Z) (by decide)
 
 theorem dagarg_plain {R : List TokenKind} (hR : ValOk R) (hs : Starts R) : DagArgOk R := by
-  intro Z hf n fl d loc cps _ hn
+  intro Z hf n fl d loc cps cur ps _ hn
   obtain ⟨hv, hC⟩ := dagFollow_iff.mp hf
   have hV := starts_not_var hs
   obtain ⟨m, rfl⟩ : ∃ m, n = m + 16 := ⟨n - 16, by omega⟩
-  have e1 := fun n fl d loc cps => hR Z hv n fl d loc cps trivial
+  have e1 := fun n fl d loc cps cur ps => hR Z hv n fl d loc cps cur ps trivial
   ax_eval [ax_call (f := .dagarg), e1]
 
 theorem dagarg_named {R : List TokenKind} (hR : ValOk R) (hs : Starts R) :
     DagArgNOk (R ++ [TokenKind.Colon, TokenKind.VarName]) := by
-  intro Z _ n fl d loc cps _ hn
+  intro Z _ n fl d loc cps cur ps _ hn
   have hV := starts_not_var hs
   simp only [List.length_append, List.length_cons, List.length_nil] at hn
   obtain ⟨m, rfl⟩ : ∃ m, n = m + 30 := ⟨n - 30, by omega⟩
-  have e1 := fun n fl d loc cps => hR (TokenKind.Colon :: TokenKind.VarName :: Z) rfl n fl d loc cps trivial
+  have e1 := fun n fl d loc cps cur ps => hR (TokenKind.Colon :: TokenKind.VarName :: Z) rfl n fl d loc cps cur ps trivial
   ax_eval [ax_call (f := .dagarg), ax_call (f := .var_name), e1]
 
 theorem DagArgNOk.weaken {R : List TokenKind} (h : DagArgNOk R) : DagArgOk R :=
@@ -591,7 +649,7 @@ theorem dagarg_val {R : List TokenKind} (hR : ValOk R) (hs : Starts R) (nm : Boo
   | true => exact (dagarg_named hR hs).weaken
 
 /-- an item of `dagarg_list` -/
-abbrev DItemOk (R : List TokenKind) : Prop := ItemOk anyCtx [.Eof] (call .dagarg) 304 true dagFollow R
+abbrev DItemOk (R : List TokenKind) : Prop := ItemOk anyCtx [.Eof] (call .dagarg) 304 true dagFollow .DagArg R
 
 theorem ditem_var : DItemOk [TokenKind.VarName] := ⟨dagarg_var, fun _ => rfl, by simp⟩
 
@@ -601,13 +659,16 @@ theorem ditem_val {R : List TokenKind} (hR : ValOk R) (hs : Starts R) (nm : Bool
 
 /-- `dagarg_list` on `R, R', …` before the closing `)` -/
 theorem dag_list (R : List TokenKind) (Rs : List (List TokenKind)) (hall : ∀ R' ∈ R :: Rs, DItemOk R')
-    (X : List TokenKind) (n : Nat) (fl : Bool) (d : Nat) (loc : List Bool) (cps : List Nat)
+    (X : List TokenKind) (n : Nat) (fl : Bool) (d : Nat) (loc : List Bool) (cps : CpStack) (cur : List SyntaxKind) (ps : List (SyntaxKind × List SyntaxKind))
     (hn : 64 * (joinC R Rs).length + 336 ≤ n) :
-    ax n (call .dagarg_list) ⟨joinC R Rs ++ TokenKind.RParen :: X, fl, d, loc, cps, true⟩ =
-      some ⟨TokenKind.RParen :: X, true, d, loc, cps, true⟩ := by
+    ax n (call .dagarg_list) ⟨joinC R Rs ++ TokenKind.RParen :: X, fl, d, loc, cps, true, cur, ps⟩ =
+      some ⟨TokenKind.RParen :: X, true, d, loc, cps, true, .DagArgList :: cur, ps⟩ := by
   obtain ⟨m, rfl⟩ : ∃ m, n = m + 12 := ⟨n - 12, by omega⟩
-  have e1 := fun n fl d loc cps => sep_loop anyCtx [.Eof] (call .dagarg) 304 true dagFollow rfl Rs R hall
-    (TokenKind.RParen :: X) rfl rfl n fl d loc cps trivial
+  have hg : goodNode .DagArgList (pushAll (List.replicate Rs.length .DagArg) [.DagArg]).reverse = true :=
+    good_all_push .DagArgList ⟨"args", .all, [.DagArg]⟩ rfl rfl (List.replicate (Rs.length + 1) .DagArg)
+      (by intro x hx; rw [List.eq_of_mem_replicate hx]; rfl)
+  have e1 := fun n fl d loc cps cur ps => sep_loop anyCtx [.Eof] (call .dagarg) 304 true dagFollow .DagArg rfl Rs R hall
+    (TokenKind.RParen :: X) rfl rfl n fl d loc cps cur ps trivial
   ax_eval [ax_call (f := .dagarg_list), e1]
 
 /-- the operator position: an identifier, `!cast`, `?` or `!getdagop` starts it -/
@@ -619,12 +680,12 @@ theorem OpStart.starts {O : List TokenKind} (h : OpStart O) : Starts O :=
 
 /-- `(op[:$n])` -/
 theorem lit_dag_plain {O : List TokenKind} (hO : ValOk O) (hOs : OpStart O) (nm : Bool) :
-    LitOk (TokenKind.LParen :: (O ++ (nameR nm ++ [TokenKind.RParen]))) := by
-  intro Z _ n fl d loc cps _ hn
+    LitOk .Dag (TokenKind.LParen :: (O ++ (nameR nm ++ [TokenKind.RParen]))) := by
+  intro Z _ n fl d loc cps cur ps _ hn
   simp only [List.length_cons, List.length_append, List.length_nil] at hn
   obtain ⟨m, rfl⟩ : ∃ m, n = m + 60 := ⟨n - 60, by omega⟩
   have hop : ∀ Z, [TokenKind.Id, .XCast, .Question, .XGetDagOp].contains ((O ++ Z).headD .Eof) = true := hOs
-  have e1 := fun n fl d loc cps => dagarg_val hO hOs.starts nm (TokenKind.RParen :: Z) rfl n fl d loc cps trivial
+  have e1 := fun n fl d loc cps cur ps => dagarg_val hO hOs.starts nm (TokenKind.RParen :: Z) rfl n fl d loc cps cur ps trivial
   simp only [List.append_assoc, List.length_append] at e1
   ax_eval [ax_call (f := .simple_value), ax_call (f := .dag), simpleValueArms, e1]
 
@@ -634,8 +695,8 @@ theorem lit_dag_args {O : List TokenKind} (hO : ValOk O) (hOs : OpStart O) (nm :
     (R : List TokenKind) (Rs : List (List TokenKind)) (hall : ∀ R' ∈ R :: Rs, DItemOk R')
     (hR1 : ∀ Z, [TokenKind.RParen].contains ((R ++ Z).headD .Eof) = false)
     (hsafe : nm = true ∨ ∀ Z, dagFollow ((R ++ Z).headD .Eof) = true) :
-    LitOk (TokenKind.LParen :: (O ++ (nameR nm ++ (joinC R Rs ++ [TokenKind.RParen])))) := by
-  intro Z _ n fl d loc cps _ hn
+    LitOk .Dag (TokenKind.LParen :: (O ++ (nameR nm ++ (joinC R Rs ++ [TokenKind.RParen])))) := by
+  intro Z _ n fl d loc cps cur ps _ hn
   simp only [List.length_cons, List.length_append, List.length_nil] at hn
   obtain ⟨m, rfl⟩ : ∃ m, n = m + 60 := ⟨n - 60, by omega⟩
   have hop : ∀ Z, [TokenKind.Id, .XCast, .Question, .XGetDagOp].contains ((O ++ Z).headD .Eof) = true := hOs
@@ -645,10 +706,10 @@ theorem lit_dag_args {O : List TokenKind} (hO : ValOk O) (hOs : OpStart O) (nm :
     | cons R' Rs' => simp [joinC, List.append_assoc]
   have hR1' : ∀ W, [TokenKind.RParen].contains ((joinC R Rs ++ W).headD .Eof) = false := by
     intro W; rw [hj]; exact hR1 _
-  have e2 := fun n fl d loc cps => dag_list R Rs hall Z n fl d loc cps
+  have e2 := fun n fl d loc cps cur ps => dag_list R Rs hall Z n fl d loc cps cur ps
   cases nm with
   | true =>
-    have e1 := fun n fl d loc cps => dagarg_named hO hOs.starts (joinC R Rs ++ TokenKind.RParen :: Z) rfl n fl d loc cps trivial
+    have e1 := fun n fl d loc cps cur ps => dagarg_named hO hOs.starts (joinC R Rs ++ TokenKind.RParen :: Z) rfl n fl d loc cps cur ps trivial
     simp only [List.append_assoc, List.cons_append, List.nil_append, List.length_append, List.length_cons,
       List.length_nil] at e1
     simp only [nameR_true, List.length_cons, List.length_nil] at hn
@@ -658,7 +719,7 @@ theorem lit_dag_args {O : List TokenKind} (hO : ValOk O) (hOs : OpStart O) (nm :
       rcases hsafe with h | h
       · cases h
       · rw [hj]; exact h _
-    have e1 := fun n fl d loc cps => dagarg_plain hO hOs.starts (joinC R Rs ++ TokenKind.RParen :: Z) hsf n fl d loc cps trivial
+    have e1 := fun n fl d loc cps cur ps => dagarg_plain hO hOs.starts (joinC R Rs ++ TokenKind.RParen :: Z) hsf n fl d loc cps cur ps trivial
     simp only [nameR_false, List.length_nil] at hn
     ax_eval [ax_call (f := .simple_value), ax_call (f := .dag), simpleValueArms, nameR_false, e1, e2]
 
